@@ -1,20 +1,23 @@
 #!/bin/bash
 # Runs every stored seeded change against the quick check of its property
-# and writes /verif/seeded/RESULTS.md. /repo's working tree must be clean.
+# (on a scratch copy of /repo: tools/seeded_check.sh) and writes
+# /verif/seeded/RESULTS.md. usage: tools/seeded_all.sh [parallel streams]
 cd /verif
+n=${1:-3}
 out=seeded/RESULTS.md
-echo "| property | change | quick check | summary |" > $out.tmp
-echo "|---|---|---|---|" >> $out.tmp
-for d in seeded/C*/m*; do
-  id=$(basename $(dirname $d)); k=$(basename $d)
-  if ! git -C /repo diff --quiet; then echo "repo dirty"; exit 3; fi
-  git -C /repo apply /verif/$d/patch.diff || { echo "| $id | $k | PATCH DOES NOT APPLY | |" >> $out.tmp; continue; }
-  timeout 3600 ./check $id > /tmp/seeded_all.out 2>&1; rc=$?
-  git -C /repo checkout -- .
-  rm -rf replays/$id
-  case $rc in 1) r="caught (VIOLATION)";; 0) r="MISSED";; *) r="inconclusive (exit $rc)";; esac
-  s=$(python3 -c "import json;print(json.load(open('$d/meta.json'))['summary'].replace('|','/')[:160])")
-  echo "| $id | $k | $r | $s |" >> $out.tmp
-  echo "$id $k $r"
+tmp=$(mktemp -d /tmp/seeded_all.XXXX)
+ls -d seeded/C*/m* | sort > $tmp/list
+split -n l/$n -d $tmp/list $tmp/part.
+for part in $tmp/part.*; do
+  ( while read d; do
+      id=$(basename $(dirname $d)); k=$(basename $d)
+      r=$(tools/seeded_check.sh $id $d/patch.diff 2>&1 | grep -E "^exit=" | tail -1)
+      case "$r" in exit=1) v="caught (VIOLATION)";; exit=0) v="MISSED";; *) v="inconclusive ($r)";; esac
+      s=$(python3 -c "import json;print(json.load(open('$d/meta.json'))['summary'].replace('|','/').replace('\n',' ')[:170])")
+      echo "| $id | $k | $v | $s |" >> $part.out
+      echo "$id $k $v"
+    done < $part ) &
 done
-mv $out.tmp $out
+wait
+{ echo "| property | change | quick check of that property | summary |"; echo "|---|---|---|---|"; cat $tmp/part.*.out | sort; } > $out
+rm -rf $tmp
